@@ -313,3 +313,57 @@ def contracts():
         c.prop = PROP
     have = {c.name for c in _c18_base2()}
     return _c18_base2() + [c for c in extra if c.name not in have]
+
+
+# ---------------------------------------------------------------------------------------------
+# Every holder of a Selector (class, instances, subclasses) owns its objects list AND its name mapping,
+# whatever mapping type the objects were declared with — concrete probe, not a proof
+# ---------------------------------------------------------------------------------------------
+HOLDERS_REPLAY = '''import sys, os, collections, itertools
+sys.path.insert(0, os.environ.get('PYVC_REPO', '/repo'))
+import logging
+logging.disable(logging.WARNING)
+import param
+bad = []
+class MyDict(dict):
+    pass
+def consistent(label, sel):
+    lst = list(sel.objects)
+    items = list(sel.objects.items()) if sel.names else None
+    if items is not None and [v for _, v in items] != lst:
+        bad.append('%s: the name mapping %r does not describe the list view %r' % (label, items, lst))
+    rng = sel.get_range()
+    if list(rng.values()) != lst:
+        bad.append('%s: get_range() %r does not describe the list view %r' % (label, dict(rng), lst))
+MAPPINGS = {'dict': dict, 'OrderedDict': collections.OrderedDict, 'dict subclass': MyDict,
+            'defaultdict': lambda pairs: collections.defaultdict(int, pairs)}
+OPS = {'setitem-new': lambda o: o.__setitem__('four', 4), 'setitem-existing': lambda o: o.__setitem__('two', 22),
+       'pop-key': lambda o: o.pop('one'), 'remove': lambda o: o.remove(3), 'update': lambda o: o.update({'five': 5}),
+       'clear': lambda o: o.clear()}
+for (mname, mk), (oname, op), via in itertools.product(MAPPINGS.items(), OPS.items(), ('instance', 'subclass')):
+    P = type('P', (param.Parameterized,), {'s': param.Selector(objects=mk([('one', 1), ('two', 2), ('three', 3)]))})
+    Q = type('Q', (P,), {})
+    a, b = P(), P()
+    if via == 'subclass':
+        Q.s = 2                       # Q gets its own copy of the Selector
+        target = Q.param.s
+    else:
+        target = a.param.s
+    before = {k: (list(h.param.s.objects), dict(h.param.s.names)) for k, h in (('class P', P), ('instance b', b))}
+    try:
+        op(target.objects)
+    except Exception as e:
+        bad.append('%s declared objects, %s through the %s: raised %r' % (mname, oname, via, e)); continue
+    label = '%s-declared objects, %s through the %s' % (mname, oname, via)
+    consistent(label + ' / edited holder', target)
+    for k, h in (('class P', P), ('instance b', b)):
+        consistent(label + ' / ' + k, h.param.s)
+        now = (list(h.param.s.objects), dict(h.param.s.names))
+        if now != before[k]:
+            bad.append('%s: %s now reports objects %r names %r (was %r)' % (label, k, now[0], now[1], before[k]))
+if bad:
+    print('REPRODUCED: ' + bad[0]); sys.exit(1)
+print('NOT-REPRODUCED'); sys.exit(0)
+'''
+
+PROBES = [("every holder of a Selector owns its objects and names, whatever mapping type declared them", HOLDERS_REPLAY)]
